@@ -38,7 +38,20 @@ func (e *Engine) intrinsic(fr *Frame, st *State, name string, fn *ssa.Function, 
 		} else {
 			bt = tImp(guard, bt)
 		}
-		return T{fmt.Sprintf("(%s ((%s %s)) %s)", q, bv.S, sort, bt.S), sBool}
+		res := fmt.Sprintf("(%s ((%s %s)) %s)", q, bv.S, sort, bt.S)
+		if name == "GvcForall" && sort == sInt {
+			// the same statement over the absolute element index, so that instantiation triggers
+			// on reads of the backing store match whatever the slice offsets are (see DESIGN §2.4)
+			vars := shiftedVariants(bt.S, bv.S, func() string { e.nfresh++; return fmt.Sprintf("k%d", e.nfresh) })
+			if len(vars) > 0 {
+				parts := []string{res}
+				for _, v := range vars {
+					parts = append(parts, fmt.Sprintf("(forall ((%s Int)) %s)", v.Var, v.Body))
+				}
+				res = "(and " + strings.Join(parts, " ") + ")"
+			}
+		}
+		return T{res, sBool}
 	case "GvcOld":
 		fv, ok := args[0].(*FuncV)
 		if !ok {
@@ -109,6 +122,8 @@ func (e *Engine) builtin(fr *Frame, st *State, b *ssa.Builtin, c *ssa.CallCommon
 		hh := e.heap(st, hn, arraySort(sRef, arraySort(ks, sBool)))
 		lh := e.heap(st, ln, arraySort(sRef, sInt))
 		had := tSel(tSel(hh, m), k)
+		e.recStore(hn, m)
+		e.recStore(ln, m)
 		e.setHeap(st, ln, tStore(lh, m, tIte(had, T{fmt.Sprintf("(- %s 1)", tSel(lh, m).S), sInt}, tSel(lh, m))))
 		e.setHeap(st, hn, tStore(hh, m, tStore(tSel(hh, m), k, tFalse)))
 		return Tuple{}
@@ -194,6 +209,8 @@ func (e *Engine) appendModel(fr *Frame, st *State, s T, tv Val, sT, tT types.Typ
 	e.assume(st, T{fmt.Sprintf("(forall ((i Int)) (! (=> (not (and (<= (+ %s %s) i) (< i (+ %s %s)))) (= (select %s i) (select (select %s %s) i))) :pattern ((select %s i))))", so.S, n1.S, so.S, total.S, arr2.S, h.S, sb.S, arr2.S), sBool})
 	e.assume(st, T{fmt.Sprintf("(forall ((j Int)) (! (=> (and (<= 0 j) (< j %s)) (= (select %s (+ %s %s j)) (select (select %s %s) (+ %s j)))) :pattern ((select %s (+ %s %s j)))))", n2.S, arr2.S, so.S, n1.S, h.S, tb.S, to.S, arr2.S, so.S, n1.S), sBool})
 	nh := tIte(T{fmt.Sprintf("(= %s 0)", n2.S), sBool}, h, tIte(inplace, tStore(h, sb, arr2), tStore(h, nb, arr)))
+	e.recStore(hn, sb)
+	e.recStore(hn, nb)
 	e.setHeap(st, hn, nh)
 	return res
 }
@@ -222,6 +239,7 @@ func (e *Engine) appendStructElems(st *State, s, t T, et types.Type, inplace, nb
 		e.assume(st, T{fmt.Sprintf("(=> (not %s) (forall ((i Int)) (! (=> (and (<= 0 i) (< i %s)) (= (select %s (eref %s i)) (select %s (eref %s (+ %s i))))) :pattern ((eref %s i)))))", inplace.S, n1.S, nh.S, nb.S, h.S, sb.S, so.S, nb.S), sBool})
 		// appended elements
 		e.assume(st, T{fmt.Sprintf("(forall ((j Int)) (! (=> (and (<= 0 j) (< j %s)) (= (select %s (eref %s (+ %s %s j))) (select %s (eref %s (+ %s j))))) :pattern ((eref %s (+ %s %s j)))))", n2.S, nh.S, db.S, do.S, n1.S, h.S, tb.S, to.S, db.S, do.S, n1.S), sBool})
+		e.recWild(hn)
 		st.heaps[hn] = nh
 	}
 }
@@ -241,6 +259,7 @@ func (e *Engine) copyModel(fr *Frame, st *State, d, s T, dT, sT types.Type) Val 
 	arr := e.fresh(inner, "cp")
 	e.assume(st, T{fmt.Sprintf("(forall ((i Int)) (! (= (select %s i) (ite (and (<= (soff %s) i) (< i (+ (soff %s) %s))) (select (select %s (sbase %s)) (+ (soff %s) (- i (soff %s)))) (select (select %s (sbase %s)) i))) :pattern ((select %s i))))",
 		arr.S, d.S, d.S, n.S, h.S, s.S, s.S, d.S, h.S, d.S, arr.S), sBool})
+	e.recStore(hn, T{app("sbase", d), sRef})
 	e.setHeap(st, hn, tIte(T{fmt.Sprintf("(= %s 0)", n.S), sBool}, h, tStore(h, T{app("sbase", d), sRef}, arr)))
 	return n
 }
